@@ -491,6 +491,17 @@ def queue_fill(seed, proto):
         # held ones (they count towards the ten), later attempts are refused
         b.op(op="resolve", how="ok")
         b.op(op="quiesce")
+        if rng.random() < 0.5:
+            # ... and an application that reacts to the loss of the link by queueing 9..12 commands from its
+            # connection callback, i.e. while the client is still tearing the failed connection down: the
+            # cut-off message counts towards the ten from the first moment
+            m = msg(b.proto, 900)
+            b.op(op="sub", who="cd", kind="connection",
+                 sends={"msg": m, "policy": POL_IDEM, "only_on_disconnect": True, "on_disconnect_n": rng.randrange(9, 13)})
+            b.op(op="arm_fault", nth=rng.randrange(1, 4))
+            b.send(POL_IDEM)
+            b.op(op="quiesce")
+            b.op(op="unsub", who="cd", kind="connection")
         for _ in range(rng.randrange(1, 3)):
             b.op(op="arm_fault", nth=rng.randrange(1, 4))
             b.send(rng.choice([POL_IDEM, POL_IDEM, {"policy": {"retries": 1, "lifetime_ms": 2000}}, POL_NONIDEM]))
